@@ -149,7 +149,9 @@ func fenceMatch(
 					}
 					// Maybe the old object and new object create a line that crosses the fence.
 					// Must detect for that possibility.
-					if !nocross && details.old != nil {
+					if !nocross && details.old != nil &&
+						objIsSpatial(details.old.Geo()) {
+						// (a former string value has no position to come from)
 						ls := geojson.NewLineString(geometry.NewLine(
 							[]geometry.Point{
 								details.old.Geo().Center(),
